@@ -24,7 +24,7 @@ Theorem C06_conv_honoured :
     find (fun c => ident_match (fc_dst c) (matcher_expr lhs) true) (o_conv o) = Some c ->
     match_field d o mpos fuel lhs rhs args = (Ok a, ev) ->
     a = Some (ANoMatch lhs) \/
-    exists arg n, a = Some (ASimple lhs (RNode n) (fc_err c)) /\ cast_shape o (NConv arg c) (expr_type lhs) n.
+    exists arg n, a = Some (ASimple lhs (RNode n) (fc_err c)) /\ cast_shape d o (NConv arg c) (expr_type lhs) n.
 Proof.
   intros d o mpos fuel lhs rhs args c a ev Hs Hc H.
   rewrite (match_field_conv d o mpos fuel lhs rhs args c Hs Hc) in H.
@@ -42,7 +42,7 @@ Theorem C06_map_honoured :
     match_field d o mpos fuel lhs rhs args = (Ok a, ev) ->
     a = Some (ANoMatch lhs) \/
     exists src n, resolve_expr d (nm_src m) (node_root rhs) = Some src /\
-                  a = Some (ASimple lhs (RNode n) (returns_error n)) /\ cast_shape o src (expr_type lhs) n.
+                  a = Some (ASimple lhs (RNode n) (returns_error n)) /\ cast_shape d o src (expr_type lhs) n.
 Proof.
   intros d o mpos fuel lhs rhs args m a ev Hs Hc Hm H.
   rewrite (match_field_map d o mpos fuel lhs rhs args m Hs Hc Hm) in H.
